@@ -473,6 +473,9 @@ class TransportLayerLogic:
             if self.rate_limit_window_size <= 0:
                 raise ValueError('rate_limit_window_size must be greater than 0')
 
+            if not math.isfinite(self.rate_limit_window_size) or not math.isfinite(self.rate_limit_max_bitrate * self.rate_limit_window_size):
+                raise ValueError('rate_limit_window_size and the resulting window size in bits must be finite')
+
             if not isinstance(self.rate_limit_enable, bool):
                 raise ValueError('rate_limit_enable must be a boolean value')
 
